@@ -5,6 +5,15 @@
 //! harness keeps its own copies of every secret alive across the window. Deciding patterns: 64-bit values (only
 //! high-entropy ones), 32-byte blinding factors, the seed, recovered mask components. Seed-derived nonces are
 //! scanned too but only reported as a NOTE (they are "created from" secrets in a looser sense).
+//!
+//! 64-bit value patterns need care. Moving a struct copies its padding bytes, and padding carries whatever the stack
+//! slot held before - e.g. seven bytes of a value the harness or the library itself had there. Next to a real byte
+//! that happens to equal the eighth (a small enum discriminant against the value's low byte) this is an eight-byte
+//! match in a block nobody ever stored a value in: observed once in 24000 thorough cases (discriminant of the
+//! extension degree, followed by 7 bytes of padding, in a cloned statement). Two defences: every byte of a
+//! registered value is >= 0x80 (no coincidence with tags, lengths, zeroised memory, canonical scalars' top byte), and
+//! a value hit is reported only if the same window hits again in two re-runs of the case with other values - a
+//! buffer that really holds the values is released in every run, a coincidence needs 2^-8 per re-run.
 
 use std::mem::MaybeUninit;
 
@@ -30,6 +39,8 @@ struct Win<'a> {
     profile: String,
     /// false: hits are reported as a NOTE only (situations the property does not name)
     deciding: bool,
+    /// windows in which a 64-bit value pattern was seen: (window name, what, replay); confirmed by re-runs before reporting
+    value_hits: Vec<(String, String, Value)>,
 }
 
 impl<'a> Win<'a> {
@@ -54,6 +65,14 @@ impl<'a> Win<'a> {
             } else if n > 0 {
                 let sizes: Vec<usize> = rp.records.iter().filter(|r| r.0 == kind).map(|r| r.1).collect();
                 let wname: String = name.chars().filter(|c| !c.is_ascii_digit()).collect();
+                if kind == spy::KIND_VALUE {
+                    self.value_hits.push((
+                        name.to_string(),
+                        format!("{n} heap block(s) released during `{name}` still held a {} (block sizes {:?}, build {}; seen again in two re-runs of the case with other values)", KIND_NAMES[kind as usize], &sizes[..sizes.len().min(6)], self.profile),
+                        replay.clone(),
+                    ));
+                    continue;
+                }
                 self.rep.violation(
                     &format!("C20 leak {} [{}]", KIND_NAMES[kind as usize], wname),
                     &format!("{n} heap block(s) released during `{name}` still held a {} (block sizes {:?}, build {})", KIND_NAMES[kind as usize], &sizes[..sizes.len().min(6)], self.profile),
@@ -113,6 +132,30 @@ fn selftest(ctx: &Ctx, rep: &mut Report, profile: &str) {
 }
 
 fn one(ctx: &Ctx, rep: &mut Report, id: usize, c: usize, profile: &str) {
+    let hits = one_salted(ctx, rep, id, c, profile, 0);
+    if hits.is_empty() {
+        return;
+    }
+    // a 64-bit value pattern was seen in a released block: the same windows must hit again with other values
+    rep.count("value_hits_raw", hits.len() as u64);
+    let mut confirmed: Vec<(String, String, Value)> = hits;
+    for salt in 1..=2u64 {
+        let mut scratch = Report::new("C20");
+        let again = one_salted(ctx, &mut scratch, id, c, profile, salt);
+        rep.count("confirmation_reruns", 1);
+        confirmed.retain(|(w, _, _)| again.iter().any(|(w2, _, _)| w2 == w));
+    }
+    if confirmed.is_empty() {
+        rep.count("value_hits_not_reproduced", 1);
+        rep.note(format!("C20: a 64-bit value pattern seen in a released block was not seen again when the case was re-run with other values: stale stack bytes in struct padding next to a coincidentally equal byte, not a buffer holding values (build {profile})"));
+    }
+    for (w, what, replay) in confirmed {
+        let wname: String = w.chars().filter(|c| !c.is_ascii_digit()).collect();
+        rep.violation(&format!("C20 leak value [{wname}]"), &what, replay);
+    }
+}
+
+fn one_salted(ctx: &Ctx, rep: &mut Report, id: usize, c: usize, profile: &str, salt: u64) -> Vec<(String, String, Value)> {
     clear_params_cache();
     let mut rng = ctx.rng("c20", id as u64);
     // 64-bit values only where they are high-entropy; otherwise values are not registered as patterns
@@ -122,7 +165,16 @@ fn one(ctx: &Ctx, rep: &mut Report, id: usize, c: usize, profile: &str) {
     let cap = m << (c % 2);
     let cfg = Cfg::new(n, m, cap, ext);
     let seeded = m == 1 && c % 3 != 2;
-    let values: Vec<u64> = (0..m).map(|_| if n == 64 { rng.next_u64() | (1 << 63) | 0x0101_0101_0101_0101 } else { pick_value(ValueClass::RandomHigh, n, &mut rng) }).collect();
+    // registered (64-bit) values: every byte >= 0x80; `salt` gives the confirmation re-runs other values
+    let values: Vec<u64> = (0..m)
+        .map(|j| {
+            if n == 64 {
+                (rng.next_u64() ^ SplitMix64(salt.wrapping_mul(0x9E37_79B9_7F4A_7C15) ^ j as u64).next().wrapping_mul(salt.min(1))) | 0x8080_8080_8080_8080
+            } else {
+                pick_value(ValueClass::RandomHigh, n, &mut rng)
+            }
+        })
+        .collect();
     let promises: Vec<Option<u64>> = (0..m).map(|j| if (j + c) % 3 == 0 { Some(values[j] / 3) } else { None }).collect();
     let seed = if seeded { Some(rand_scalar(&mut rng)) } else { None };
     let case = Case::build(cfg, values.clone(), promises, seed, Context::random(&mut rng), &mut rng);
@@ -151,7 +203,7 @@ fn one(ctx: &Ctx, rep: &mut Report, id: usize, c: usize, profile: &str) {
     }
     rep.count("patterns_registered", spy::pattern_count() as u64);
     let descr = json!({"cfg": cfg.json(), "seeded": seeded, "values_registered": n == 64});
-    let mut w = Win { rep, ctx, id, descr: descr.clone(), profile: profile.to_string(), deciding: true };
+    let mut w = Win { rep, ctx, id, descr: descr.clone(), profile: profile.to_string(), deciding: true, value_hits: vec![] };
     // ---- prove
     let st = case.statement();
     let wit = case.witness();
@@ -160,7 +212,7 @@ fn one(ctx: &Ctx, rep: &mut Report, id: usize, c: usize, profile: &str) {
     let proof = w.window("prove", || RangeProof::prove_with_rng(&mut t, &st, &wit, &mut prng));
     let Ok(proof) = proof else {
         w.rep.note("C20: prover refused a valid case (see C01)".into());
-        return;
+        return std::mem::take(&mut w.value_hits);
     };
     // a prover call that fails half-way (invalid witness at the last position): temporaries are released on the error path
     {
@@ -315,7 +367,9 @@ fn one(ctx: &Ctx, rep: &mut Report, id: usize, c: usize, profile: &str) {
         }
     }
     w.window("drop RangeWitness (original)", move || drop(wit));
-    if c < 3 {
+    let hits = std::mem::take(&mut w.value_hits);
+    if c < 3 && salt == 0 {
         rep.sample(&format!("{profile}"), descr);
     }
+    hits
 }
